@@ -370,7 +370,9 @@ def s7(prog, ctx, fns):
                 guard_ok = False
                 for nm in [render(x) for x in size.walk() if x.is_expr() and x.strip().k in ("DeclRefExpr", "MemberExpr", "UnaryOperator") and x.strip().j.get("sg") is not None]:
                     okg, cut = cfg.all_paths_cut(cfg.block_of(c), lambda lit, b, i, nm=nm: lit is not None and lit.pol and (
-                        (lit.kind == "lt" and lit.lhs.const_value() == 0 and render(lit.rhs) == nm) or (lit.kind == "truth" and lit.atom == nm)))
+                        (lit.kind == "lt" and lit.lhs.const_value() == 0 and render(lit.rhs) == nm) or (lit.kind == "truth" and lit.atom == nm) or
+                        # x < nm with x unsigned: nm is at least 1
+                        (lit.kind == "lt" and render(lit.rhs) == nm and (lit.lhs.strip().j.get("sg") is False or "unsigned" in (lit.lhs.strip().j.get("ct") or "")))))
                     if okg and cut:
                         guard_ok = True
                 if not guard_ok:
@@ -383,6 +385,14 @@ def s7(prog, ctx, fns):
                     s0 = size.strip()
                     while s0.k in ("ImplicitCastExpr", "ParenExpr", "CStyleCastExpr") and s0.children:
                         s0 = s0.children[0].strip()
+                    if s0.k == "BinaryOperator" and s0.j.get("op") == "*":
+                        a8, b8 = s0.children[0].strip(), s0.children[1].strip()
+                        for x8, c8 in ((a8, b8), (b8, a8)):
+                            if (c8.const_value() or 0) > 0 and c8.k != "DeclRefExpr":
+                                s0 = x8
+                                while s0.k in ("ImplicitCastExpr", "ParenExpr", "CStyleCastExpr") and s0.children:
+                                    s0 = s0.children[0].strip()
+                                break
                     if s0.k == "DeclRefExpr" and s0.j.get("dk") == "local":
                         v = s0.j["name"]
                         defs = [(l2, r2) for l2, r2, st2 in f.assignments() if (l2["name"] if isinstance(l2, dict) else render(l2)) == v]
@@ -391,6 +401,29 @@ def s7(prog, ctx, fns):
                         addr = [x for x in f.walk() if x.k == "UnaryOperator" and x.j.get("op") == "&" and render(x.children[0]) == v]
                         addr_ok = all(x.up() is not None and x.up().k == "CallExpr" and x.up().j.get("callee") in ("getline", "getdelim", "__getdelim") for x in addr)
                         if consts and not others and addr_ok:
+                            guard_ok = True
+                        # ... or every definition is positive: a positive constant, `x + c`, or `x * c` behind a test `x > 0`
+                        def _positive(l2, r2, st2):
+                            if r2 is None:
+                                return False
+                            if (r2.const_value() or 0) > 0:
+                                return True
+                            r9 = r2.strip()
+                            while r9.k in ("ImplicitCastExpr", "ParenExpr", "CStyleCastExpr") and r9.children:
+                                r9 = r9.children[0].strip()
+                            if r9.k == "BinaryOperator" and r9.j.get("op") in ("+", "*"):
+                                a9, b9 = r9.children[0].strip(), r9.children[1].strip()
+                                for x9, c9 in ((a9, b9), (b9, a9)):
+                                    if (c9.const_value() or 0) >= 1:
+                                        if r9.j["op"] == "+" and (x9.j.get("sg") is False or "unsigned" in (x9.j.get("ct") or "")):
+                                            return True
+                                        xt = render(x9)
+                                        okx, cutx = cfg.all_paths_cut(cfg.block_of(st2), lambda lit, b, i, xt=xt: lit is not None and lit.pol and (
+                                            (lit.kind == "lt" and lit.lhs.const_value() == 0 and render(lit.rhs) == xt) or (lit.kind == "truth" and lit.atom == xt)))
+                                        if okx and cutx:
+                                            return True
+                            return False
+                        if not guard_ok and defs and not others and not addr and all(_positive(l2, r2, st2) for (l2, r2), st2 in zip(defs, [s3 for l3, r3, s3 in f.assignments() if (l3["name"] if isinstance(l3, dict) else render(l3)) == v])):
                             guard_ok = True
                 if guard_ok:
                     ctx.ok("S7", inst + ": size is not zero", c.where, "`%s` behind a > 0 test / after an increment / a capacity that starts positive" % stxt)
@@ -441,6 +474,62 @@ def s8(prog, ctx, fns, exc):
             if w.k == "ForStmt" and w.child("inc") is not None and any(
                     x.k == "CallExpr" and x.j.get("callee") in ("strsep", "strtok", "strtok_r") for x in w.child("inc").walk()):
                 ctx.ok("S8", inst, w.where, "driven by a tokenizer call in the increment: consumes its input")
+                continue
+            # a search that moves on behind its last hit:  p = strchr(p + 1, c)  while p != NULL  (in the increment of a for, in the
+            # condition of a while, or as the last statement of the body): every round is further right in a finite string
+            SEARCH = ("strchr", "strstr", "strpbrk", "memchr", "strcasestr")
+            stepping = []
+            for x in w.walk():
+                if x.k == "BinaryOperator" and x.j.get("op") == "=" and x.children[1].strip().k == "CallExpr" and x.children[1].strip().j.get("callee") in SEARCH:
+                    v9 = render(x.children[0])
+                    a9 = x.children[1].strip().call_args()
+                    if a9 and re.fullmatch(re.escape(v9) + r" \+ [1-9]\d*", render(a9[0])):
+                        stepping.append((x, v9))
+            if not stepping and cond is not None and body is not None:
+                # `while ((s = strchr(s, c)) != NULL) { ...; s++; }`: the search in the condition, the step behind the hit in the body
+                for x in cond.walk():
+                    if x.k == "BinaryOperator" and x.j.get("op") == "=" and x.children[1].strip().k == "CallExpr" and x.children[1].strip().j.get("callee") in SEARCH:
+                        v9 = render(x.children[0])
+                        a9 = x.children[1].strip().call_args()
+                        if a9 and render(a9[0]) == v9:
+                            tops = body.children if body.k == "CompoundStmt" else [body]
+                            steps9 = [t9 for t9 in tops if (t9.strip().k == "UnaryOperator" and t9.strip().j.get("op") == "++" and render(t9.strip().children[0]) == v9)
+                                      or (t9.strip().k == "CompoundAssignOperator" and t9.strip().j.get("op") == "+=" and render(t9.strip().children[0]) == v9
+                                          and (t9.strip().children[1].const_value() or 0) >= 1)]
+                            if steps9:
+                                stepping.append((x, v9))
+            if stepping and cond is not None:
+                v9 = stepping[0][1]
+                cl = render(cond)
+                tests_v = cl in (v9, "%s != NULL" % v9) or cl.startswith("(%s = " % v9) or ("%s != NULL" % v9) in cl or cl.startswith(v9 + " &&")
+                others = [st for lhs, rhs, st, kind in query.stores(f) if st.within(w) and render(lhs) == v9 and st is not stepping[0][0] and kind not in ("++", "+=")]
+                if tests_v and not others:
+                    ctx.ok("S8", inst, w.where, "`%s` moves on behind its last hit in a finite string until the search answers NULL" % render(stepping[0][0])[:60])
+                    continue
+            # the same with two variables and the exit in the middle:  for (;;) { end = strchr(line, c); ...; if (!end) break; line = end + 1; }
+            two = None
+            for x in w.walk():
+                if x.k in ("BinaryOperator", "DeclStmt"):
+                    if x.k == "BinaryOperator" and x.j.get("op") == "=" and x.children[1].strip().k == "CallExpr" and x.children[1].strip().j.get("callee") in SEARCH:
+                        e9, call9 = render(x.children[0]), x.children[1].strip()
+                    elif x.k == "DeclStmt" and x.j.get("decls") and x.j["decls"][0].get("init", -1) >= 0 and f.nodes[x.j["decls"][0]["init"]].strip().k == "CallExpr" \
+                            and f.nodes[x.j["decls"][0]["init"]].strip().j.get("callee") in SEARCH:
+                        e9, call9 = x.j["decls"][0]["name"], f.nodes[x.j["decls"][0]["init"]].strip()
+                    else:
+                        continue
+                    l9 = render(call9.call_args()[0]) if call9.call_args() else None
+                    adv = [st for lhs, rhs, st, kind in query.stores(f) if st.within(w) and kind == "=" and render(lhs) == l9 and rhs is not None
+                           and re.fullmatch(re.escape(e9) + r" \+ [1-9]\d*", render(rhs))]
+                    others9 = [st for lhs, rhs, st, kind in query.stores(f) if st.within(w) and render(lhs) == l9 and st not in adv]
+                    if l9 and len(adv) == 1 and not others9:
+                        # every way from the search to the step passes `e9 != NULL`; the other side leaves the loop
+                        okb, cutb = cfg.all_paths_cut(cfg.block_of(adv[0]), lambda lit, b, i, e9=e9: lit is not None and lit.kind == "truth" and lit.atom == e9 and lit.pol,
+                                                      start=cfg.block_of(x))
+                        if okb and cutb:
+                            two = (x, adv[0])
+            if two is not None:
+                ctx.ok("S8", inst, w.where, "`%s` ... `%s`: each round starts behind the last hit of a search in a finite string, and ends the loop when there is none" % (
+                    render(two[0])[:40], render(two[1])[:30]))
                 continue
             if w.k == "ForStmt":
                 sh = loops.for_shape(w)
